@@ -1,36 +1,32 @@
 import Liquid.Utf8
+import Liquid.Generated.CaseTables
 /-!
-# Case mapping (`unicode.ToUpper` / `unicode.ToLower`) on a modelled table
+# Case mapping (`unicode.ToUpper` / `unicode.ToLower`) on every rune
 
-Go's case tables are not reproduced. The model knows the mapping of
+`strings.ToUpper` / `strings.ToLower` map each rune with `unicode.ToUpper` / `unicode.ToLower`: the *simple*
+case mapping of the Unicode data the Go standard library carries (one rune to one rune, no `ß → SS`, no
+locale: U+0130 and U+0131 are mapped as UnicodeData.txt says, `İ → i`, `ı → I`). That mapping is not part
+of the repository under verification; it belongs to the toolchain the engine is built with. Translator T6
+(`translate/casetables`, DESIGN 5.4) calls both functions on every rune U+0000..U+10FFFF on every check run
+and writes the result as range tables (`Liquid/Generated/CaseTables.lean`: `upperRanges`, `lowerRanges`,
+a few hundred ranges, Unicode 15.0.0 with go1.23). The model looks a rune up there; every rune has an answer.
 
-* ASCII (U+0000–U+007F),
-* Latin-1 Supplement (U+0080–U+00FF) **except** U+00B5 MICRO SIGN (upper-cases to U+039C),
-  U+00DF SHARP S and U+00FF (upper-cases to U+0178), whose images leave the block,
-* General Punctuation U+2000–U+206F (no cased letters),
-* U+1F300–U+1F6FF (pictographs and emoticons; no cased letters),
-* U+FFFD (what an invalid byte decodes to).
-
-`none` = outside the table (the filter models answer `unmodelled`). The table is closed under
-both maps, which is what `upcase_idem` / `downcase_idem` need. The `strf` stream compares every
-rune of the table with the real `strings.ToUpper` / `ToLower` on every run.
+`upperRune` / `lowerRune` keep the `Option` type they had when the table was partial (the filter models and
+the `sort_natural` keys are written over it); they answer `some` everywhere (`upperRune_total`,
+`Proofs/CaseTables.lean`). What the theorems need of the tables — images are scalar values, both maps are
+idempotent — is computed over the ranges in `Proofs/CaseTables.lean` and re-checked whenever the tables change.
+The `strf` stream compares the lookup with the real filters on every rune (thorough tier) or on every rune of
+every range, the range borders and a random sample (quick tier).
 -/
 
-/-- the runes whose case mapping is modelled -/
-def caseModelled (r : Rune) : Bool :=
-  r < 0xB5 || (0xB5 < r && r < 0xDF) || (0xDF < r && r < 0xFF) ||
-  (0x2000 ≤ r && r ≤ 0x206F) || (0x1F300 ≤ r && r ≤ 0x1F6FF) || r == 0xFFFD
+/-- `unicode.ToUpper` -/
+def toUpperRune (r : Rune) : Rune := caseLookup upperRanges r
 
-/-- `unicode.ToUpper` on the modelled table -/
-def upperRune (r : Rune) : Option Rune :=
-  if !caseModelled r then none
-  else if 0x61 ≤ r && r ≤ 0x7A then some (r - 32)
-  else if 0xE0 ≤ r && r ≤ 0xFE && r != 0xF7 then some (r - 32)
-  else some r
+/-- `unicode.ToLower` -/
+def toLowerRune (r : Rune) : Rune := caseLookup lowerRanges r
 
-/-- `unicode.ToLower` on the modelled table -/
-def lowerRune (r : Rune) : Option Rune :=
-  if !caseModelled r then none
-  else if 0x41 ≤ r && r ≤ 0x5A then some (r + 32)
-  else if 0xC0 ≤ r && r ≤ 0xDE && r != 0xD7 then some (r + 32)
-  else some r
+/-- `unicode.ToUpper`, in the shape the filter models use (`some` on every rune) -/
+def upperRune (r : Rune) : Option Rune := some (toUpperRune r)
+
+/-- `unicode.ToLower`, in the shape the filter models use (`some` on every rune) -/
+def lowerRune (r : Rune) : Option Rune := some (toLowerRune r)
